@@ -42,7 +42,9 @@ LV2 = "INSERT OVERWRITE TABLE foo SELECT sc.id, q.col1 FROM bar sc LATERAL VIEW 
 KNOWN = {
     "D21": [("insert into t select foo.a from bar", "ansi")],
     "D22": [("insert into t select (select max(x) from u) as m, a from s", "ansi")],
-    "D23": [("INSERT INTO tab1 SELECT * FROM tab2; ALTER TABLE tab1 RENAME TO tab3;", "ansi")],
+    "D23": [("INSERT INTO tab1 SELECT * FROM tab2; ALTER TABLE tab1 RENAME TO tab3;", "ansi"), ("INSERT INTO tab1 SELECT * FROM tab2; ALTER TABLE tab1 RENAME TO tab3;", "non-validating")],
+    # D28: sqlparse analyzer does not take a keyword-like word (catalog) as a derived-table alias
+    "D28": [("insert into t select catalog.x from (select x from s) catalog", "non-validating")],
     "D24": [(q, d) for q in (LV1, LV2) for d in ("databricks", "hive", "sparksql")],
 }
 
@@ -53,6 +55,10 @@ FAMILY = [
     ("insert into t select a, (select max(x) from s) as m from s", "ansi"),
     ("INSERT INTO tab1 SELECT a FROM tab2; ALTER TABLE tab9 RENAME TO tab3;", "ansi"),
 ]
+
+
+# corpus files that are witnesses of a known finding: (path relative to the repository, dialect) -> finding
+KNOWN_FILES = {("sqllineage/data/tpcds/query49.sql", "non-validating"): "D28"}
 
 
 def check(sql, dialect):
@@ -113,8 +119,9 @@ def main():
     confirm = sys.argv[sys.argv.index("--confirm") + 1] if "--confirm" in sys.argv else None
     if confirm:
         out = []
-        for sql, d in KNOWN[confirm]:
-            out += [{"clause": c, "detail": x, "sql": sql, "dialect": d} for c, x in check(sql, d)[:2]]
+        extra = [(s_, d_) for s_, d_, w_ in corpus() if KNOWN_FILES.get((w_, "non-validating")) == confirm for d_ in ["non-validating"]]
+        for sql, d in KNOWN[confirm] + extra:
+            out += [{"clause": c, "detail": x, "sql": sql[:300], "dialect": d} for c, x in check(sql, d)[:2]]
         print(json.dumps({"violations": out[:6]}))
         return 1 if out else 0
     inputs = [(s, d, w) for s, d, w in corpus()] + [(s, d, "generated") for s, d in GENERATED] + [(q, d, "family of a known finding") for q, d in FAMILY]
@@ -123,7 +130,7 @@ def main():
     known_inputs = {(" ".join(q.split()), d) for v in KNOWN.values() for q, d in v}
     fails, evals, skipped, nontrivial = [], 0, 0, 0
     for sql, d, where in inputs:
-        if (" ".join(sql.split()), d) in known_inputs:
+        if (" ".join(sql.split()), d) in known_inputs or (where, d) in KNOWN_FILES:
             continue
         try:
             bad = check(sql, d)
